@@ -21,7 +21,7 @@ theorem supported_rules (cfg : ServerCfg) (tunnel : Bool) (tr : Transport)
   obtain ⟨proto, mc, prof, cp, il, md⟩ := tr
   obtain ⟨tls, udp, mcast⟩ := cfg
   cases proto <;> cases prof <;> cases tls <;> cases tunnel <;> cases mc <;> cases udp <;> cases mcast <;>
-    simp_all [isTransportSupported, isSecure, Sec.isSecureIsSAVP, Sec.admitNoPlainUDPOverTLS, Sec.admitNoSecureOverPlain]
+    simp_all [isTransportSupported, isSecure, Sec.isSecureIsSAVP, Sec.ruleNoPlainUDPOverTLS, Sec.ruleNoSecureOverPlain]
 
 theorem pickFirst_supported (cfg : ServerCfg) (tunnel : Bool) (ts : List Transport) (tr : Transport)
     (h : pickFirst cfg tunnel ts = some tr) : tr ∈ ts ∧ isTransportSupported cfg tunnel tr = true := by
